@@ -122,6 +122,37 @@ def check_C06(chk, tier, seed):
             add_read(fi, random_chunking(r, s), tail="x")
         else:
             add_read(fi, random_chunking(r, s))
+    # (e) frames that are refused for their CONTENT (a command code / application id the library has no name for - S6a ULR 316 /
+    # 16777251 -, an AVP the dictionary does not define, an AVP length below the AVP header) between good frames, read by a caller
+    # that goes on after the error: the refused frame is consumed whole (its announced length), the frames behind it are yielded
+    for k in range(60 if tier == "quick" else 3000):
+        r = rng.fork(f"bad{k}")
+        fi = [r.below(len(msgs)) for _ in range(r.choice([2, 3, 4]))]
+        pos = r.below(len(fi))
+        frames = [msgs[i][1] for i in fi]
+        withavp = [m for m in msgs if len(m[1]) > 28]
+        b = bytearray(frames[pos])
+        kind = k % 4
+        if kind == 0:
+            b[5:8] = gen.be(316, 3)
+        elif kind == 1:
+            b[8:12] = gen.be(16777251, 4)
+        elif kind == 2 and withavp:
+            b = bytearray(withavp[r.below(len(withavp))][1])
+            b[20:24] = gen.be(0xfffff0, 4)
+        elif withavp:
+            b = bytearray(withavp[r.below(len(withavp))][1])
+            b[25:28] = gen.be(3, 3)
+        frames[pos] = bytes(b)
+        stream = b"".join(frames)
+        want, cum = [], 0
+        for j, i in enumerate(fi):
+            cum += len(frames[j])
+            want.append(f"[ERR @{cum}]" if j == pos else f"[OK {msgs[i][2]} @{cum}]")
+        want.append(f"[EOF @{len(stream)}]")
+        chunks = [[stream], [stream[i:i + 1] for i in range(len(stream))], random_chunking(r, stream)][(k // 4) % 3]
+        cases.append(f"SD g {len(fi) + 1} {rs(chunks, 'e')}")
+        expect.append(("read-refused-content", "SD " + " ".join(want)))
     # (d) deviation-bounded Pending placement: one / two Pending entries at every position of a dribble
     r = rng.fork("dev")
     fi = [r.below(len(msgs)) for _ in range(2)]
@@ -173,6 +204,10 @@ def check_C06(chk, tier, seed):
             cut = 1 + r.below(max(1, len(fr) - 1))
             cases.append(f"SE {c[2:]} {ws([f'b:{cut:x}', 'x'])}")
             expect.append(("write-fault", "SE err " + xb(fr[:cut])))
+            # a writer that takes a part, reports one transient Interrupted (EINTR) and would take everything from then on: the encode
+            # has failed (tokio's write_all does not retry) and says so - and nothing of the frame is on the stream twice
+            cases.append(f"SE {c[2:]} {ws([f'b:{cut:x}', 'i', 1 << 20])}")
+            expect.append(("write-fault-interrupted", "SE err " + xb(fr[:cut]), "SE ok " + xb(fr)))      # (resuming where it stopped would be correct too)
     # messages carrying AVPs their dictionary does not define (the builder does not consult it; a relay forwards such AVPs): what is
     # written is the message's encoding, whether or not anybody could decode it again
     for j, (code, vend) in enumerate([(0xfffffe, None), (0xfffffe, 10415), (59999, None), (264, 77)]):
@@ -217,7 +252,7 @@ def check_C06(chk, tier, seed):
         chk.case(c, " p" in c or c.count("c:") >= 2 or c.count("a:") >= 2)
         chk.validated += 1
         chk.count(ex[0])
-        ok = im == ex[1]
+        ok = im == ex[1] or (len(ex) > 2 and im == ex[2])
         if not ok:
             if ex[0].startswith("read"):
                 chk.violation("reading concatenated frames from a segmented stream did not yield exactly those messages with exactly their octets consumed per call"
@@ -664,7 +699,7 @@ def check_C09(chk, tier, seed):
                     if q % 3:
                         continue
                     # the write side fails with ErrorKind::Interrupted after q octets: a failure like any other - nothing is written again
-                    wscript = [f"b:{q:x}", "i", "x"]
+                    wscript = [f"b:{q:x}", "i", "x"] if q % 2 else [f"b:{q:x}", "i", 1 << 20]
                 elif style == "dribble":
                     wscript = [1] * q + ["x"]
                 else:
